@@ -265,7 +265,7 @@ class C03Bounded(Bounded):
         mods = ["all", "neq", "base64", "base64offset", "cased", "cidr", "contains", "startswith", "endswith", "exists", "expand", "fieldref", "gt", "lte", "i", "m", "s", "re", "utf16", "utf16be",
                 "utf16le", "wide", "windash", "hour", "year"]
         values = ["a", "a*", "*a", "a?b", "a\\*b", "100\\% x", "%x%", "a%x%b\\%y", "100\\% *%x%", "\\%T\\%*%x%", "%x%?5\\%", "-p", "a -p/q", "a-b c/d", "tool -übersicht", "maß-stab", "/x", "ä", "10.0.0.0/8", "^a.*b$", "", "cmd -a * -b", "x -a?y -b -c*z -d", "foo[0-9]*", "ba*", "(ab|cd)*", "a\\s*", "x.*", "^x", "y$",
-                  5, 1.5, 1700000000.5, 2.5e-07, 1234.0000005, True, None, ["a", "b*"], ["-x", "%y%"], [1, 2], ["fo+bar", 5], [None, "a"], [True, "x", 1.5], []]
+                  5, 1.5, 1700000000.5, 2.5e-07, 1234.0000005, 9007199254740993, True, None, ["a", "b*"], ["-x", "%y%"], [1, 2], ["fo+bar", 5], [None, "a"], [True, "x", 1.5], []]
         maxlen = 2 if tier == "quick" else 3
         ev = nontriv = 0
         seen, fails, samples = {}, [], []
@@ -308,8 +308,12 @@ class C03Bounded(Bounded):
                         if got != want:
                             kind = chain[-1] if want != ERR or got != ERR else "x"
                             seen[kind] = seen.get(kind, 0) + 1
+                            big = isinstance(raw, int) and not isinstance(raw, bool) and abs(raw) > 2 ** 53
+                            if big:          # recorded finding D38 (an integer beyond 2**53 is stored as the nearest float); one listed input
+                                kind = "D38"
+                                seen[kind] = seen.get(kind, 0) + 1
                             if seen[kind] == 1:
-                                fails.append({"text": f"{key!r}: {raw!r} -> {got}; the specification gives {want}", "input": [key, raw]})
+                                fails.append({"text": ("KNOWN-D38 " if big else "") + f"{key!r}: {raw!r} -> {got}; the specification gives {want}", "input": [key, raw]})
                         elif len(samples) < 4 and want != ERR and n == 2 and "windash" in chain:
                             samples.append({"key": key, "value": raw, "result": str(got)[:200]})
         return {"evaluations": ev, "distinct_nontrivial": nontriv, "failures": fails[:30], "failure_counts": seen,
